@@ -21,6 +21,15 @@ pub fn setup(env: &Env) -> i32 {
             for (k, v) in &b.rejected {
                 println!("setup: rejected {k}: {v}");
             }
+            // the sample corpus without debug assertions (used by every run-time check of the quick tier)
+            let sample = crate::corpus::class_sample(&decls, 2);
+            match build_rt(env, &env.work.join("gen/rtnda"), "ndacorpus", &sample, false) {
+                Ok(sb) => println!("setup: sample corpus without debug assertions: {} declarations built in {:.1}s", sample.len(), sb.build_s),
+                Err(e) => {
+                    eprintln!("setup failed: {e}");
+                    return 2;
+                }
+            }
             0
         }
         Err(e) => {
@@ -108,6 +117,46 @@ pub fn run(env: &Env, prop: &str, tier: &str) -> i32 {
         fuzz_stats = fo.stats;
     }
     rep.notes.push(format!("libfuzzer: {fuzz_stats}"));
+    // the other setting of `debug-assertions` (quick: the corpus above has them on, thorough: off) on a
+    // stratified sample of the corpus: code behind `debug_assert!` / `cfg!(debug_assertions)` is part of what
+    // a user gets in one of the two kinds of build
+    if prop != "C02" {
+        let da_on = release;
+        let sample = crate::corpus::class_sample(&decls, 2);
+        let (sdir, sname) = if da_on { (env.work.join("gen/rtdbg"), "dbgcorpus") } else { (env.work.join("gen/rtnda"), "ndacorpus") };
+        let sbuilt = match build_rt(env, &sdir, sname, &sample, false) {
+            Ok(b) => b,
+            Err(e) => {
+                eprintln!("INCONCLUSIVE: {e}");
+                return 2;
+            }
+        };
+        let srep = match run_harness(env, &sbuilt.bins, prop, "quick", &[]) {
+            Ok(r) => r,
+            Err(e) => {
+                eprintln!("INCONCLUSIVE: {e}");
+                return 2;
+            }
+        };
+        let marker = if da_on { " [in the build with debug-assertions = true]" } else { " [in the build with debug-assertions = false]" };
+        rep.notes.push(format!(
+            "second build with debug-assertions = {da_on}: {} sampled declarations, {} evaluations, {} violation record(s)",
+            sample.len(),
+            srep.evaluations,
+            srep.viols.len()
+        ));
+        rep.evaluations += srep.evaluations;
+        rep.nontrivial += srep.nontrivial;
+        *rep.classes.entry(format!("evaluations-with-debug-assertions-{da_on}-sample")).or_insert(0) += srep.evaluations;
+        for mut v in srep.viols {
+            // already seen in the main build: not specific to this setting
+            if rep.viols.iter().any(|x| x.signature == v.signature) {
+                continue;
+            }
+            v.actual.push_str(marker);
+            rep.viols.push(v);
+        }
+    }
     if prop == "C12" {
         // the premise of the property: Eq/Ord on a float newtype is only permitted together with `finite`
         let units = vmodel::cf::c12_gate_units();
@@ -276,6 +325,7 @@ pub fn write_replay(env: &Env, decls: &[vmodel::Decl], v: &vlib_report::Viol, ti
         "shrunk_by": v.shrunk,
         "seed": env.seed,
         "tier": tier,
+        "debug_assertions": !v.actual.contains("[in the build with debug-assertions = false]"),
         "modules": modules,
     });
     std::fs::write(dir.join("case.json"), serde_json::to_string_pretty(&case).unwrap()).expect("replay");
@@ -317,6 +367,28 @@ fn finish(
         }
     }
     if prop == "C02" {
+        // units whose bound cannot denote a value of the bound type: being accepted is the violation
+        let mut must = 0u64;
+        for d in decls.iter() {
+            let Some(class) = d.tags.iter().find_map(|t| t.strip_prefix("c02:must-reject:")) else { continue };
+            must += 1;
+            if !built.rejected.contains_key(&d.id) {
+                rep.viols.push(vlib_report::Viol {
+                    prop: "C02".into(),
+                    decl_id: d.id.clone(),
+                    type_name: d.type_name.clone(),
+                    decl: d.decl_text(),
+                    signature: format!("C02|accepted-declaration-it-cannot-honour|{class}|{}", d.inner.ty()),
+                    case: json!({"accepted": true}),
+                    expected: "rejected at compile time (the bound expression does not denote a value of the bound type)".into(),
+                    actual: "accepted".into(),
+                    shrunk: "none".into(),
+                });
+            }
+        }
+        rep.evaluations += must;
+        rep.nontrivial += must;
+        *rep.classes.entry("must-reject-unit".into()).or_insert(0) += must;
         // vacuity guard: rejection is an allowed outcome, but not for (almost) everything
         let accepted = decls.len() - built.rejected.len();
         if accepted * 2 < decls.len() {
@@ -471,7 +543,7 @@ pub fn replay(env: &Env, dir: &str) -> i32 {
     let rdir = env.work.join("gen/replay");
     let _ = std::fs::remove_dir_all(rdir.join("src"));
     std::fs::create_dir_all(rdir.join("src")).ok();
-    write_if_changed(&rdir.join("Cargo.toml"), &format!("{}\n{}", member_toml(env, "replaycorpus", RT_FEATURES), workspace_toml(&[]).replace("members = []", "")));
+    write_if_changed(&rdir.join("Cargo.toml"), &format!("{}\n{}", member_toml(env, "replaycorpus", RT_FEATURES), crate::corpus::workspace_toml_da(&[], case["debug_assertions"].as_bool().unwrap_or(true)).replace("members = []", "")));
     std::fs::create_dir_all(rdir.join(".cargo")).ok();
     write_if_changed(&rdir.join(".cargo/config.toml"), "[net]\noffline = true\n");
     if !rdir.join("Cargo.lock").exists() {
@@ -488,6 +560,27 @@ pub fn replay(env: &Env, dir: &str) -> i32 {
     main.push_str(&format!("pub static REG: &[vlib::types::Entry] = &[\n{reg}];\nfn main() {{ vlib::run::main(REG) }}\n"));
     std::fs::write(rdir.join("src/main.rs"), main).unwrap();
     let (ok, per_file, other) = cargo_build(env, &rdir, false, false);
+    // violations that consist in the compile verdict itself
+    if case["case"]["accepted"].as_bool() == Some(true) {
+        if ok {
+            println!("VIOLATION property={prop} replay={dir}");
+            println!("  signature: {}\n  the declaration is still accepted", case["signature"].as_str().unwrap_or(""));
+            return 1;
+        }
+        println!("replay: the declaration is rejected now: {per_file:?}");
+        return 0;
+    }
+    if case["case"].get("compile_error").is_some() {
+        if ok {
+            println!("replay: the declaration and its wildcard-free error mapping compile now");
+            return 0;
+        }
+        if per_file.values().any(|w| w.starts_with("E0004") || w.starts_with("E0599") || w.starts_with("E0026") || w.starts_with("E0027")) {
+            println!("VIOLATION property={prop} replay={dir}");
+            println!("  signature: {}\n  still: {per_file:?}", case["signature"].as_str().unwrap_or(""));
+            return 1;
+        }
+    }
     if !ok {
         println!("replay: the saved declaration no longer compiles against /repo: {per_file:?} {other:?}");
         return 2;
